@@ -11,7 +11,7 @@ import time
 from . import env
 
 PY = sys.executable
-JOBS = int(os.environ.get("PVMON_JOBS", "16"))
+JOBS = int(os.environ.get("PVMON_JOBS", str(max(2, min(16, os.cpu_count() or 4)))))
 
 
 class Lost:
